@@ -6,7 +6,8 @@ import os, sys, re, json, time, subprocess, fcntl, hashlib, random, importlib, g
 ROOT = os.path.dirname(os.path.dirname(os.path.abspath(__file__)))
 COQ = os.path.join(ROOT, 'coq')
 REPO = os.environ.get('GOODWE_REPO', '/repo')
-EVID = os.path.join(ROOT, 'evidence')
+# seeded-change runs (tools/seedtest.sh, tools/seedall.sh) write their evidence elsewhere: evidence/ describes runs on the unchanged tree only
+EVID = os.environ.get('VERIF_EVIDENCE_DIR') or os.path.join(ROOT, 'evidence')
 REPLAYS = os.path.join(EVID, 'replays')
 PY = '/venv/bin/python'
 
